@@ -594,6 +594,13 @@ func (g *gen) block1(depth int, inListItemFirst bool, afterPara bool) *blk {
 	case 9, 10:
 		g.f("block:fenced")
 		b := &blk{k: kFenced, fenceCh: "`~"[g.r.Intn(2)], fenceN: g.r.Range(3, 5)}
+		if !g.no("fence:very-long") && g.r.Intn(40) == 0 {
+			// the spec does not bound the length of a fence; a shorter run of the same
+			// character inside the block is content (seeded change C15-k kept the opening
+			// length in eight bits)
+			b.fenceN = 254 + g.r.Range(0, 8)
+			g.f("fence:very-long")
+		}
 		b.lines = g.codeLinesFor(true, b.fenceCh, b.fenceN)
 		if g.r.Bool() {
 			b.info = []string{"go", "python", "c++", "a&amp;b", "x\\*y"}[g.r.Intn(5)]
